@@ -1027,7 +1027,9 @@ class PDFSimpleFont(PDFFont):
         else:
             encoding = LITERAL_STANDARD_ENCODING
         if isinstance(encoding, dict):
-            name = literal_name(encoding.get("BaseEncoding", LITERAL_STANDARD_ENCODING))
+            name = literal_name(
+                resolve1(encoding.get("BaseEncoding", LITERAL_STANDARD_ENCODING))
+            )
             diff = list_value(encoding.get("Differences", []))
             self.cid2unicode = EncodingDB.get_encoding(name, diff)
         else:
